@@ -247,23 +247,53 @@ pub fn eval_crc_equiv_reader(buf: &[u8], off: usize) -> Sigs {
     let class = refdec::class_of(buf);
     let mut stream = vec![0x5au8; off];
     stream.extend_from_slice(buf);
-    let script = [Step::Read(1); 0];
-    let r = std::panic::catch_unwind(std::panic::AssertUnwindSafe(|| {
-        let mut s = Scripted::at(&stream, off, &script, 1);
-        adsb_deku::Frame::from_reader(&mut s).ok().map(|f| f.crc)
-    }));
-    match r {
-        Ok(Some(crc)) => {
-            let req = bits::required_len(buf[0] >> 3);
-            let e = bits::refcrc(&buf[..req]);
-            if e != crc {
-                vec![(format!("C03/syndrome_reader/{class}"), format!("checksum of a frame decoded from a reader (1 byte per read, {off} bytes into the stream): bitwise division gives {e:06x}, library reports {crc:06x}"))]
-            } else {
-                vec![]
+    // without a fault, and with one transient `Interrupted` (which the I/O layer retries) before
+    // read call k: every k for a quarter of the frames, one k for the others
+    let ks: Vec<Option<usize>> = if buf.len() > 2 && buf[2] % 4 == 0 { std::iter::once(None).chain((0..18).map(Some)).collect() } else { vec![None, Some((buf[buf.len() - 1] as usize + off) % 18)] };
+    let mut out = vec![];
+    for k in ks {
+        let script: Vec<Step> = match k {
+            None => vec![],
+            Some(k) => std::iter::repeat(Step::Read(1)).take(k).chain(std::iter::once(Step::Interrupt)).collect(),
+        };
+        let r = std::panic::catch_unwind(std::panic::AssertUnwindSafe(|| {
+            let mut s = Scripted::at(&stream, off, &script, 1);
+            adsb_deku::Frame::from_reader(&mut s).ok().map(|f| f.crc)
+        }));
+        match r {
+            Ok(Some(crc)) => {
+                let req = bits::required_len(buf[0] >> 3);
+                let e = bits::refcrc(&buf[..req]);
+                if e != crc {
+                    let how = match k {
+                        None => String::new(),
+                        Some(k) => format!(", read call {k} interrupted once"),
+                    };
+                    out.push((format!("C03/syndrome_reader/{class}"), format!("checksum of a frame decoded from a reader (1 byte per read, {off} bytes into the stream{how}): bitwise division gives {e:06x}, library reports {crc:06x}")));
+                    break;
+                }
+            }
+            Ok(None) => {}
+            Err(_) => {
+                out.push((format!("C03/panic/{class}"), format!("from_reader panicked: {}", last_panic())));
+                break;
             }
         }
-        Ok(None) => vec![],
-        Err(_) => vec![(format!("C03/panic/{class}"), format!("from_reader panicked: {}", last_panic()))],
+    }
+    out
+}
+
+/// constructed frames the library did not report at all, one example per class
+static NOT_REPORTED: std::sync::Mutex<std::collections::BTreeMap<String, String>> = std::sync::Mutex::new(std::collections::BTreeMap::new());
+
+/// a constructed frame that is rejected has no checksum to compare: counted per class, so that a
+/// format which is never reported at all does not pass for lack of cases
+fn note_not_reported(st: &mut Stats, class: &str, b: &[u8]) {
+    if let Decoded::Err(_) = decode(b) {
+        st.class(&format!("not reported: {class}"));
+        if let Ok(mut m) = NOT_REPORTED.lock() {
+            m.entry(class.to_string()).or_insert_with(|| bits::hex(b));
+        }
     }
 }
 
@@ -304,6 +334,10 @@ fn eval_corrupt(buf: &[u8]) -> (Sigs, bool) {
 pub fn replay_c03(v: &Value) -> Vec<Failure> {
     let Some(buf) = bits::unhex(v.get("hex").and_then(|h| h.as_str()).unwrap_or("")) else { return vec![] };
     let sigs = match v.get("check").and_then(|c| c.as_str()) {
+        Some("reported") => match decode(&buf) {
+            Decoded::Err(e) => vec![(format!("C03/never_reported/DF{:02}", buf.first().map(|b| b >> 3).unwrap_or(0)), format!("a constructed frame of an assigned format and full length is not reported: {e}"))],
+            _ => vec![],
+        },
         Some("corrupt") => {
             // base ^ pattern must not be reported with checksum 0
             eval_corrupt(&buf).0
@@ -604,7 +638,8 @@ pub fn run_c03(ctx: &Ctx) -> ! {
             bits::fix_parity(&mut b, 0);
             st.eval();
             st.nontrivial(&b);
-            st.class("meaning: valid squitter");
+            st.class(&format!("meaning: valid squitter DF{df}"));
+            note_not_reported(st, &format!("meaning: valid squitter DF{df}"), &b);
             for (sig, msg) in eval_crc_meaning(&b, 0, "valid_squitter") {
                 st.fail(Failure { sig, msg: format!("{msg} (frame {})", bits::hex(&b)), replay: json!({"kind":"frame","check":"meaning","what":"valid_squitter","target":0,"hex":bits::hex(&b)}) });
             }
@@ -615,6 +650,7 @@ pub fn run_c03(ctx: &Ctx) -> ! {
             st.eval();
             st.nontrivial(&b);
             st.class("meaning: DF11 interrogator code");
+            note_not_reported(st, "meaning: DF11 interrogator code", &b);
             for (sig, msg) in eval_crc_meaning(&b, ii, "interrogator_code") {
                 st.fail(Failure { sig, msg: format!("{msg} (frame {})", bits::hex(&b)), replay: json!({"kind":"frame","check":"meaning","what":"interrogator_code","target":ii,"hex":bits::hex(&b)}) });
             }
@@ -632,6 +668,7 @@ pub fn run_c03(ctx: &Ctx) -> ! {
             st.eval();
             st.nontrivial(&b);
             st.class(&format!("meaning: address DF{df:02}"));
+            note_not_reported(st, &format!("meaning: address DF{df:02}"), &b);
             if i == 0 {
                 st.sample(json!({"address_parity_frame": bits::hex(&b), "address": format!("{aa:06x}")}));
             }
@@ -730,6 +767,20 @@ pub fn run_c03(ctx: &Ctx) -> ! {
         }
     });
     st.merge(pre);
+    // a format of which every constructed frame was rejected has no reported checksum at all
+    let meanings: Vec<(String, u64)> = st.classes.iter().filter(|(k, _)| k.starts_with("meaning: ")).map(|(k, v)| (k.clone(), *v)).collect();
+    for (class, total) in meanings {
+        let rej = st.classes.get(&format!("not reported: {class}")).copied().unwrap_or(0);
+        if total >= 20 && rej == total {
+            let hex = NOT_REPORTED.lock().ok().and_then(|m| m.get(&class).cloned()).unwrap_or_default();
+            let df = class.rsplit("DF").next().unwrap_or("").trim().to_string();
+            st.fail(Failure {
+                sig: format!("C03/never_reported/DF{df}"),
+                msg: format!("none of the {total} constructed frames of `{class}` was reported at all (e.g. {hex}): the format has no checksum"),
+                replay: json!({"kind": "frame", "check": "reported", "hex": hex}),
+            });
+        }
+    }
     st.samples.push(json!({"base_frames": bases.iter().map(|b| bits::hex(b)).collect::<Vec<_>>()}));
     st.samples.push(json!({"error_pattern_example": {"base": bits::hex(&bases[0]), "flipped_bits": [3, 40, 77]}}));
     st.exhaustive.push("all frames with one non-zero byte besides the DF byte, every accepted DF".into());
